@@ -249,12 +249,25 @@ func (pf *Portfolio) Check(script, getValues string, timeoutMs int) QueryResult 
 		}(s)
 	}
 	final := QueryResult{Res: "unknown"}
+	watchdog := time.After(time.Duration(timeoutMs)*time.Millisecond + 15*time.Second)
+loop:
 	for got := 0; got < len(pf.specs); got++ {
-		r := <-ch
-		if r.Res == "sat" || r.Res == "unsat" {
-			final = r
+		select {
+		case r := <-ch:
+			if r.Res == "sat" || r.Res == "unsat" {
+				final = r
+				atomic.StoreInt32(&answered, 1)
+				break loop
+			}
+		case <-watchdog:
+			// a solver ignored both its soft limit and the per-process kill timer: kill everything and give up
 			atomic.StoreInt32(&answered, 1)
-			break
+			pf.mu.Lock()
+			for _, p := range pf.procs {
+				p.kill()
+			}
+			pf.mu.Unlock()
+			break loop
 		}
 	}
 	pf.mu.Lock()
